@@ -81,6 +81,9 @@ def inject(data, fault, rnd):
             return 'added transition to unknown state'
         t = rnd.choice(rnd.choice(cand)['transitions'])
         t['target'] = 'no-such-state'
+        if rnd.random() < 0.3:
+            # (whatever the transition says: the rejection is a StatechartError)
+            t['guard'] = rnd.choice(['x in {1, 2, 3}', 'y not in {}', "'{0}' != '{'", 'x == {"a": 1}.get("a")'])
         return 'transition retargeted to unknown state'
     if fault == 'empty_target':
         if '' in names:
@@ -200,7 +203,7 @@ def inject(data, fault, rnd):
         if not cand:
             return None
         t = rnd.choice(rnd.choice(cand)['transitions'])
-        t['priority'] = rnd.choice(['urgent', 'HIGH', None, 'one', '1.5x', ''])
+        t['priority'] = rnd.choice(['urgent', 'HIGH', None, 'one', '1.5x', '', 'highest', 'lower', 'below', 'very high', 'low '])
         return 'priority %r' % (t['priority'],)
     if fault == 'both_kinds':
         s = rnd.choice(sts)[0]
